@@ -1,0 +1,67 @@
+//go:build verif
+// +build verif
+
+package sleep
+
+import (
+	"sync/atomic"
+	"unsafe"
+)
+
+// Verification hooks, compiled only with the "verif" build tag.
+const verifEnabled = true
+
+// Schedule-point identifiers passed to VerifPoint.
+const (
+	VerifPtNextWakerLoop   = 1  // nextWaker: sharedList was nil, about to prepare
+	VerifPtPrepared        = 2  // nextWaker: waitingG=preparingG stored, before re-check
+	VerifPtBeforePark      = 3  // nextWaker: re-check passed, before gopark
+	VerifPtAfterPark       = 4  // nextWaker: returned from gopark
+	VerifPtPullShared      = 5  // nextWaker: before swapping sharedList out
+	VerifPtFetchSwap       = 6  // Fetch: before swapping w.s back to the sleeper
+	VerifPtDoneLoad        = 7  // Done: before loading w.s
+	VerifPtDonePending     = 8  // Done: before waiting for a pending waker
+	VerifPtEnqueueLoad     = 9  // enqueueAssertedWaker: before loading sharedList
+	VerifPtEnqueueCAS      = 10 // enqueueAssertedWaker: before CAS on sharedList
+	VerifPtEnqueueLoadG    = 11 // enqueueAssertedWaker: before loading waitingG
+	VerifPtEnqueueCASG     = 12 // enqueueAssertedWaker: before CAS on waitingG
+	VerifPtBeforeReady     = 13 // enqueueAssertedWaker: before goready
+	VerifPtAssertLoad      = 14 // Assert: before fast-path load
+	VerifPtAssertSwap      = 15 // Assert: before swap
+	VerifPtClearLoad       = 16 // Clear: before load
+	VerifPtClearCAS        = 17 // Clear: before CAS
+	VerifPtAddWakerLoad    = 18 // AddWaker: before load
+	VerifPtEnqueueReturned = 19 // enqueueAssertedWaker: waitingG was 0, returning
+)
+
+// VerifPoint, when non-nil, is called at every schedule point with the point
+// identifier and the Sleeper or Waker concerned. It must be set before any
+// Sleeper is used and not changed afterwards.
+var VerifPoint func(id int, p unsafe.Pointer)
+
+// VerifWaitReason is the runtime wait reason handed to gopark. The value is
+// toolchain specific; the harness sets it before any Sleeper is used.
+var VerifWaitReason uint8 = 9
+
+//go:linkname verifGopark runtime.gopark
+func verifGopark(unlockf func(uintptr, *uintptr) bool, wg *uintptr, reason uint8, traceReason uint8, traceskip int)
+
+// verifPark parks the calling goroutine exactly like the gopark call it
+// stands in for (commitSleep still decides the commit), but through a
+// declaration that matches the runtime's current signature.
+func verifPark(wg *uintptr) bool {
+	verifGopark(commitSleep, wg, VerifWaitReason, 0, 0)
+	return true
+}
+
+func verifPoint(id int, p unsafe.Pointer) {
+	if f := VerifPoint; f != nil {
+		f(id, p)
+	}
+}
+
+// VerifWaitingG returns the sleeper's waitingG word (0, 1=preparing, or a G).
+func (s *Sleeper) VerifWaitingG() uintptr { return atomic.LoadUintptr(&s.waitingG) }
+
+// VerifSharedEmpty reports whether the shared list of asserted wakers is empty.
+func (s *Sleeper) VerifSharedEmpty() bool { return atomic.LoadPointer(&s.sharedList) == nil }
